@@ -121,3 +121,62 @@ func fromAst(e ast.Expr, core bool) *m.Expr {
 	}
 	return &m.Expr{K: fmt.Sprintf("%T!", e)}
 }
+
+// ToAst builds a yae tree from a CORE model tree with explicit call nodes
+// (the way test/util_test.go builds trees), positions unknown.
+func ToAst(e *m.Expr) ast.Expr {
+	u := pos.Unknown
+	switch e.K {
+	case "num":
+		return ast.Num(e.Text, u)
+	case "str":
+		return ast.Str(e.Text, u)
+	case "time":
+		return ast.Time(e.Text, u)
+	case "bool":
+		if e.Text == "true" {
+			return ast.True(u)
+		}
+		return ast.False(u)
+	case "var":
+		return ast.Var(e.Name, u)
+	case "list":
+		xs := make([]ast.Expr, len(e.A))
+		for i, a := range e.A {
+			xs[i] = ToAst(a)
+		}
+		return ast.List(xs, u)
+	case "map":
+		var ps []ast.Pair
+		for i := 0; i+1 < len(e.A); i += 2 {
+			ps = append(ps, ast.Pair{Key: ToAst(e.A[i]), Val: ToAst(e.A[i+1])})
+		}
+		if ps == nil {
+			ps = []ast.Pair{}
+		}
+		return ast.Map(ps, u)
+	case "obj":
+		fs := make([]ast.Field, len(e.A))
+		for i, a := range e.A {
+			fs[i] = ast.Field{Name: e.Keys[i], Val: ToAst(a)}
+		}
+		return ast.Obj(fs, u)
+	case "member":
+		return ast.Member(ToAst(e.A[0]), ast.Var(e.Name, u), pos.UnknownCol, u)
+	case "index":
+		return ast.Subscript(ToAst(e.A[0]), ToAst(e.A[1]), pos.UnknownCol, u)
+	case "call":
+		xs := make([]ast.Expr, len(e.A))
+		for i, a := range e.A {
+			xs[i] = ToAst(a)
+		}
+		return ast.Call(ast.Var(e.Name, u), xs, pos.UnknownCol, u)
+	case "dcall":
+		xs := make([]ast.Expr, len(e.A)-1)
+		for i, a := range e.A[1:] {
+			xs[i] = ToAst(a)
+		}
+		return ast.Call(ToAst(e.A[0]), xs, pos.UnknownCol, u)
+	}
+	panic("ToAst: not a core node: " + e.K)
+}
